@@ -11,12 +11,28 @@ package main
 // that conflicting appends, snapshots and prefix deletions hit slot 0, slot 1, the last slot and the
 // middle of real files. Payloads are tiny and unique per (save id, concrete index).
 //
+// Size-rotation family (exp.cap.big > 0, the specification's MaxBig). The other real rotation constant
+// (maxLogFileSize = 32 MiB: a file's payload area is 31 MiB) is a const as well, so the specification's
+// payload class Big (d = 3, one unit; SizeCap units per file) is instantiated with REAL payloads of
+// 31 MiB/(SizeCap+1) + 256 KiB (+ a seeded jitter): SizeCap of them plus all the small payloads a file
+// can hold fit into a file, one more does not, exactly as the specification's Rolls(); class Huge (d = 4)
+// is a payload of 31 MiB + 64 KiB, more than the payload area of an empty file. Blocks are uniform
+// in this family (30000/FileCap concrete entries each, so that FileCap abstract slots are one real file
+// wherever a file starts); a Big abstract entry is a block whose FIRST concrete entry carries the big
+// payload, so that the real roll falls on the block edge like in the specification (what DeleteBefore and
+// Init leave depends on the file boundaries, so the boundaries have to be the specification's). With
+// FileCap = 30000 every abstract entry is ONE concrete entry (rotation by size only). The real
+// file layout (first index and used slots of every *.entry file, read
+// from the slot tables on /dev/shm) is compared with the specification's after every action (drift,
+// not a verdict) and real rotations by size are counted (vacuity guard of props/c17.py).
+//
 // As a cross-check of the SPEC (not the oracle) the same operations are fed to etcd's
 // raft.MemoryStorage; a spec-vs-MemoryStorage disagreement is an infrastructure error.
 
 import (
 	"bufio"
 	"bytes"
+	"encoding/binary"
 	"encoding/json"
 	"fmt"
 	"math"
@@ -41,7 +57,14 @@ const (
 	rlRealCap   = 30000 // maxNumEntries of lib/raftlog/log.go
 	rlCompacted = -1
 	rlUnavail   = -2
+	rlBig       = 3        // payload class Big of the spec
+	rlHuge      = 4        // payload class Huge of the spec: does not fit into an empty file
+	rlSlotBytes = 32       // entrySize of lib/raftlog/log.go
+	rlPayArea   = 31 << 20 // maxLogFileSize - logFileOffset
+	rlMaxBigs   = 12       // refuse behaviours that would write more big payloads than this
 )
+
+var rlTrace = os.Getenv("VH_RAFTLOG_TRACE") != ""
 
 type rlEnt struct {
 	I int64 `json:"i"`
@@ -53,6 +76,7 @@ type rlEnt struct {
 type rlFile struct {
 	Fi int64 `json:"fi"`
 	N  int64 `json:"n"`
+	U  int64 `json:"u"`
 }
 
 type rlExp struct {
@@ -72,8 +96,13 @@ type rlExp struct {
 		C int64 `json:"c"`
 	} `json:"hard"`
 	Files []rlFile `json:"files"`
-	Clob  []int64  `json:"clob"`
-	Vis   []int64  `json:"vis"`
+	Cap   struct {
+		Slots int64 `json:"slots"`
+		Units int64 `json:"units"`
+		Big   int64 `json:"big"`
+	} `json:"cap"`
+	Clob []int64 `json:"clob"`
+	Vis  []int64 `json:"vis"`
 }
 
 type rlArgs struct {
@@ -82,6 +111,8 @@ type rlArgs struct {
 	N  int64 `json:"n"`
 	T  int64 `json:"t"`
 	D  int64 `json:"d"`
+	Bm int64 `json:"bm"`
+	Bc int64 `json:"bc"`
 	Si int64 `json:"si"`
 	ID int64 `json:"id"`
 	I  int64 `json:"i"`
@@ -110,9 +141,18 @@ type rlConc struct {
 	seed  int64
 	edges map[int64][2]int64
 	rng   *rand.Rand
+	// size-rotation family: uniform blocks of `block` concrete entries (0 = palette mode), the big payload
+	// is carried by the first concrete entry of a Big block and has bigLen bytes
+	slots  int64
+	block  int64
+	bigLen int
+	bigs   map[[2]int64][]byte
 }
 
 func (c *rlConc) period(p int64) [2]int64 {
+	if c.block > 0 {
+		return [2]int64{c.block, 2 * c.block}
+	}
 	if e, ok := c.edges[p]; ok {
 		return e
 	}
@@ -126,6 +166,9 @@ func (c *rlConc) period(p int64) [2]int64 {
 func (c *rlConc) bnd(a int64) uint64 {
 	if a <= 0 {
 		return 0
+	}
+	if c.block > 0 {
+		return uint64(a * c.block)
 	}
 	p := (a - 1) / rlFileCap
 	k := (a - 1) % rlFileCap
@@ -144,6 +187,9 @@ func (c *rlConc) bnd(a int64) uint64 {
 func (c *rlConc) blk(ci uint64) int64 {
 	if ci == 0 {
 		return 0
+	}
+	if c.block > 0 {
+		return int64(ci-1)/c.block + 1
 	}
 	p := int64(ci-1) / rlRealCap
 	for k := int64(1); k <= rlFileCap; k++ {
@@ -165,6 +211,52 @@ func rlPayload(d, s int64, ci uint64) []byte {
 	for len(b) < 48 {
 		b = append(b, byte('a'+len(b)%26))
 	}
+	return b
+}
+
+// payload of concrete entry ci of an abstract entry of class d written by save s
+func (c *rlConc) payload(d, s int64, ci uint64) []byte {
+	if d != rlBig && d != rlHuge {
+		return rlPayload(d, s, ci)
+	}
+	if c.block == 0 {
+		panic("payload class Big outside the size-rotation family")
+	}
+	n := c.bigLen
+	if d == rlHuge {
+		if c.block != 1 {
+			panic("payload class Huge needs FileCap = 30000 (one concrete entry per abstract entry)")
+		}
+		n = rlPayArea + 64<<10 + c.bigLen%4096 // more than the whole payload area of a file
+	}
+	if int64(ci-1)%c.block != 0 {
+		return rlPayload(1, s, ci)
+	}
+	k := [2]int64{s, int64(ci)}
+	if b, ok := c.bigs[k]; ok {
+		return b
+	}
+	if len(c.bigs) >= rlMaxBigs {
+		panic(fmt.Sprintf("behaviour writes more than %d big payloads", rlMaxBigs))
+	}
+	// a per-entry pattern with a prime period (a shifted or foreign payload never matches) and the save id and index
+	// as binary digits at both ends. Every byte is 0 or 1: should a defective store interpret payload bytes as a length
+	// prefix, the length stays below 17 MB (instead of up to 4 GiB of allocation per read).
+	b := make([]byte, n)
+	r := rand.New(rand.NewSource(s*1000003 + int64(ci)))
+	pat := make([]byte, 65521)
+	r.Read(pat)
+	for i := range pat {
+		pat[i] &= 1
+	}
+	for o := 0; o < len(b); o += len(pat) {
+		copy(b[o:], pat)
+	}
+	for i := 0; i < 64; i++ {
+		bit := byte((uint64(s)<<40 ^ ci) >> uint(i) & 1)
+		b[i], b[len(b)-1-i] = bit, bit
+	}
+	c.bigs[k] = b
 	return b
 }
 
@@ -195,7 +287,7 @@ func (w *rlWant) entry(ci uint64, dev1 bool) raftpb.Entry {
 	if e.I != a {
 		panic(fmt.Sprintf("spec entry table inconsistent: want index %d got %d", a, e.I))
 	}
-	ent := raftpb.Entry{Index: ci, Term: uint64(e.T), Type: rlType(e.S, ci), Data: rlPayload(e.D, e.S, ci)}
+	ent := raftpb.Entry{Index: ci, Term: uint64(e.T), Type: rlType(e.S, ci), Data: w.c.payload(e.D, e.S, ci)}
 	if dev1 && w.empty[ci] {
 		ent.Data = nil
 	}
@@ -280,11 +372,18 @@ func rlEntsEqual(a, b []raftpb.Entry) (bool, string) {
 	}
 	for i := range a {
 		if a[i].Index != b[i].Index || a[i].Term != b[i].Term || a[i].Type != b[i].Type || !bytes.Equal(a[i].Data, b[i].Data) {
-			return false, fmt.Sprintf("entry #%d: got {index %d term %d type %v payload %q}, want {index %d term %d type %v payload %q}",
-				i, a[i].Index, a[i].Term, a[i].Type, a[i].Data, b[i].Index, b[i].Term, b[i].Type, b[i].Data)
+			return false, fmt.Sprintf("entry #%d: got {index %d term %d type %v payload %s}, want {index %d term %d type %v payload %s}",
+				i, a[i].Index, a[i].Term, a[i].Type, rlShow(a[i].Data), b[i].Index, b[i].Term, b[i].Type, rlShow(b[i].Data))
 		}
 	}
 	return true, ""
+}
+
+func rlShow(b []byte) string {
+	if len(b) <= 64 {
+		return fmt.Sprintf("%q", b)
+	}
+	return fmt.Sprintf("%q..%q (%d bytes)", b[:24], b[len(b)-16:], len(b))
 }
 
 // ---- MemoryStorage as a cross-check of the specification ----------------------------------------
@@ -300,16 +399,19 @@ func msEntries(ms *raft.MemoryStorage, lo, hi, max uint64) (code int64, es []raf
 }
 
 type rlRun struct {
-	lc     *rlCase
-	conc   *rlConc
-	dir    string
-	rds    *raftlog.RaftDiskStorage
-	ms     *raft.MemoryStorage
-	res    *caseResult
-	known  map[string]string
-	rwType int
-	rng    *rand.Rand
-	want   *rlWant
+	lc       *rlCase
+	conc     *rlConc
+	dir      string
+	rds      *raftlog.RaftDiskStorage
+	ms       *raft.MemoryStorage
+	res      *caseResult
+	known    map[string]string
+	rwType   int
+	rng      *rand.Rand
+	want     *rlWant
+	sizeMode bool
+	extra    *rlExtra
+	short    map[string]bool // short (rolled by size) files of the real store seen so far
 	// what was handed to the store (must come back unchanged)
 	snapData []byte
 	snapCS   raftpb.ConfState
@@ -319,6 +421,109 @@ type rlRun struct {
 func (r *rlRun) fail(step int, st *rlStep, format string, a ...interface{}) {
 	r.res.OK = false
 	r.res.Detail = fmt.Sprintf("after step %d (%s %+v) rwtype=%d edges=%v: ", step, st.A, st.Args, r.rwType, r.edgeList()) + fmt.Sprintf(format, a...)
+}
+
+// rlExtra: coverage of the size-rotation family, measured on the REAL store's files
+type rlExtra struct {
+	SizeMode          bool `json:"size_mode,omitempty"`
+	BigWritten        int  `json:"big_written,omitempty"`         // big payloads handed to Save
+	SizeRolls         int  `json:"size_rolls,omitempty"`          // real files found rolled with < 30000 used slots
+	ConflictSizeRolls int  `json:"conflict_size_rolls,omitempty"` // ... produced by a Save that conflicts with stored entries
+	MidBatchRolls     int  `json:"mid_batch_rolls,omitempty"`     // ... whose successor file starts inside the batch (not at its first entry)
+	StaleTailRolls    int  `json:"stale_tail_rolls,omitempty"`    // ... of a conflicting Save, roll point inside the batch and not beyond the old end of the log (superseded entries lay behind the roll point)
+}
+
+type rlDiskFile struct {
+	name  string
+	first uint64
+	used  int
+	size  int64
+}
+
+// diskLayout reads the slot table of every entry file of the real store: first index and number of used
+// (leading non-zero index) slots, ordered by first index; files without entries are dropped.
+func (r *rlRun) diskLayout() ([]rlDiskFile, error) {
+	names, err := filepath.Glob(filepath.Join(r.dir, "__raft_entries__", "*.entry"))
+	if err != nil {
+		return nil, err
+	}
+	var out []rlDiskFile
+	buf := make([]byte, rlRealCap*rlSlotBytes)
+	for _, n := range names {
+		f, err := os.Open(n)
+		if err != nil {
+			return nil, err
+		}
+		st, _ := f.Stat()
+		m, _ := f.ReadAt(buf, 0)
+		f.Close()
+		df := rlDiskFile{name: filepath.Base(n), size: st.Size()}
+		for k := 0; (k+1)*rlSlotBytes <= m; k++ {
+			idx := binary.BigEndian.Uint64(buf[k*rlSlotBytes+8:])
+			if idx == 0 {
+				break
+			}
+			if k == 0 {
+				df.first = idx
+			}
+			df.used++
+		}
+		if df.used > 0 {
+			out = append(out, df)
+		}
+	}
+	sort.Slice(out, func(i, j int) bool { return out[i].first < out[j].first })
+	return out, nil
+}
+
+// observeLayout compares the real file layout with the specification's (drift, informational) and counts
+// real rotations by size. prevLast = concrete last index before the step, lo/hi = concrete range of a Save's
+// batch (0,0 otherwise).
+func (r *rlRun) observeLayout(st *rlStep, prevLast, lo, hi uint64) {
+	files, err := r.diskLayout()
+	if err != nil {
+		r.res.Drift++
+		return
+	}
+	var want []rlFile
+	for _, f := range st.Exp.Files {
+		if f.N > 0 {
+			want = append(want, f)
+		}
+	}
+	same := len(files) == len(want)
+	for j := 0; same && j < len(files); j++ {
+		cf := r.conc.bnd(want[j].Fi-1) + 1
+		cn := r.conc.bnd(want[j].Fi+want[j].N-1) - r.conc.bnd(want[j].Fi-1)
+		same = files[j].first == cf && uint64(files[j].used) == cn
+	}
+	if !same {
+		r.res.Drift++
+	}
+	for j := 0; j+1 < len(files); j++ {
+		f := files[j]
+		if f.used >= rlRealCap {
+			continue
+		}
+		key := fmt.Sprintf("%s/%d/%d", f.name, f.first, f.used)
+		if r.short[key] {
+			continue
+		}
+		r.short[key] = true
+		r.extra.SizeRolls++
+		next := files[j+1].first // the entry that did not fit
+		if st.A == "Save" && hi > 0 && next >= lo && next <= hi {
+			if next > lo {
+				r.extra.MidBatchRolls++
+			}
+			if lo <= prevLast {
+				r.extra.ConflictSizeRolls++
+				if next > lo && next <= prevLast {
+					r.extra.StaleTailRolls++
+				}
+			}
+		}
+	}
 }
 
 func (r *rlRun) edgeList() string {
@@ -454,28 +659,30 @@ func (r *rlRun) checkReads(step int, st *rlStep) bool {
 	// Entries: pairs of boundary points with several size limits
 	type pair struct{ lo, hi, max uint64 }
 	var pairs []pair
-	if w.clast >= w.cfirst {
-		pairs = append(pairs, pair{w.cfirst, w.clast + 1, math.MaxUint64}) // full scan
-	}
+	// (narrow ranges first, the full scans last: a store that went wrong is recognised before the expensive reads)
 	limits := []uint64{math.MaxUint64, 0, 1, 40, 100, 700}
 	for i, lo := range pts {
 		if lo == 0 {
 			continue
 		}
+		// a window of two entries at every boundary point, without a size limit
+		pairs = append(pairs, pair{lo, lo + 2, math.MaxUint64})
 		for _, j := range []int{i + 1, i + 2, i + 3, i + 5} {
 			if j < len(pts) {
 				pairs = append(pairs, pair{lo, pts[j], limits[(i+j)%len(limits)]})
 			}
 		}
 	}
-	if w.clast >= w.cfirst { // wide ranges with small limits, range == whole log with a limit
+	if w.clast >= w.cfirst { // wide ranges with small limits, range == whole log with a limit, full scan
 		pairs = append(pairs, pair{w.cfirst, w.clast + 1, 100}, pair{w.cfirst, w.clast + 1, 0}, pair{w.cfirst, w.clast + 2, math.MaxUint64})
 		for k := 0; k < 6; k++ {
 			lo := w.cfirst + uint64(r.rng.Int63n(int64(w.clast-w.cfirst)+1))
 			hi := lo + 1 + uint64(r.rng.Int63n(int64(w.clast-lo)+1))
 			pairs = append(pairs, pair{lo, hi, []uint64{math.MaxUint64, 500, 30}[k%3]})
 		}
+		pairs = append(pairs, pair{w.cfirst, w.clast + 1, math.MaxUint64})
 	}
+	sort.SliceStable(pairs, func(i, j int) bool { return pairs[i].hi-pairs[i].lo < pairs[j].hi-pairs[j].lo })
 	for _, p := range pairs {
 		if p.lo >= p.hi {
 			continue
@@ -489,6 +696,9 @@ func (r *rlRun) checkReads(step int, st *rlStep) bool {
 		if ok, d := rlEntsEqual(ments, wents); !ok {
 			res.Infra = fmt.Sprintf("step %d: spec Entries(%d,%d,%d) differs from MemoryStorage: %s", step, p.lo, p.hi, p.max, d)
 			return false
+		}
+		if rlTrace {
+			fmt.Fprintf(os.Stderr, "TRACE step %d %s Entries(%d,%d,%d)\n", step, st.A, p.lo, p.hi, p.max)
 		}
 		gents, gerr := r.rds.Entries(p.lo, p.hi, p.max)
 		res.Reads++
@@ -546,10 +756,6 @@ func (r *rlRun) checkReads(step int, st *rlStep) bool {
 		r.fail(step, st, "InitialState conf state = %v want %v", cs, r.snapCS)
 		return false
 	}
-	// layout drift (not a verdict): number of entry files
-	if fs, err := filepath.Glob(filepath.Join(r.dir, "__raft_entries__", "*.entry")); err == nil && len(fs) != len(w.exp.Files) {
-		res.Drift++
-	}
 	return true
 }
 
@@ -602,7 +808,7 @@ func (r *rlRun) compactMS(exp *rlExp) string {
 	return ""
 }
 
-func runRaftlogCase(lc *rlCase, root string) (res caseResult) {
+func runRaftlogCase(lc *rlCase, root string, extra *rlExtra) (res caseResult) {
 	res = caseResult{ID: lc.ID, OK: true, Step: -1}
 	defer func() {
 		if p := recover(); p != nil {
@@ -612,11 +818,39 @@ func runRaftlogCase(lc *rlCase, root string) (res caseResult) {
 	}()
 	rng := rand.New(rand.NewSource(lc.Seed*1000003 + int64(lc.ID)*31 + 7))
 	r := &rlRun{lc: lc, res: &res, known: map[string]string{}, rng: rng,
-		conc: &rlConc{seed: lc.Seed*1000003 + int64(lc.ID), edges: map[int64][2]int64{}},
-		ms:   raft.NewMemoryStorage()}
+		conc: &rlConc{seed: lc.Seed*1000003 + int64(lc.ID), edges: map[int64][2]int64{}, bigs: map[[2]int64][]byte{}},
+		ms:   raft.NewMemoryStorage(), extra: extra, short: map[string]bool{}}
 	r.rwType = 2
 	if rng.Intn(5) == 0 {
 		r.rwType = 1
+	}
+	if len(lc.Hist) > 0 {
+		c0 := lc.Hist[0].Exp.Cap
+		if c0.Slots == 0 && c0.Big == 0 { // behaviour exported before the specification knew rotation by size
+			c0.Slots = rlFileCap
+		}
+		if c0.Slots != rlFileCap && c0.Big == 0 {
+			res.Infra = fmt.Sprintf("FileCap = %d: the palette concretisation needs %d", c0.Slots, rlFileCap)
+			return
+		}
+		if c0.Big > 0 { // size-rotation family
+			if c0.Slots < 1 || rlRealCap%c0.Slots != 0 || c0.Units < 1 || c0.Units > 8 || c0.Big > rlMaxBigs {
+				res.Infra = fmt.Sprintf("size-rotation family: unsupported constants %+v", c0)
+				return
+			}
+			r.sizeMode, extra.SizeMode = true, true
+			r.conc.slots, r.conc.block = c0.Slots, rlRealCap/c0.Slots
+			// Units big payloads + every small payload a file can hold (30000 * (4+48) bytes) fit into the
+			// 31 MiB payload area, Units+1 big payloads do not
+			r.conc.bigLen = rlPayArea/int(c0.Units+1) + 256<<10 + rng.Intn(4096)
+			if int(c0.Units)*(r.conc.bigLen+4)+rlRealCap*52 > rlPayArea || int(c0.Units+1)*(r.conc.bigLen+4) <= rlPayArea {
+				res.Infra = fmt.Sprintf("size-rotation family: big payload of %d bytes does not realise SizeCap = %d", r.conc.bigLen, c0.Units)
+				return
+			}
+			if r.rwType == 1 && rng.Intn(2) == 0 { // the whole-file buffers of rw type 1 are costly with 32 MiB files
+				r.rwType = 2
+			}
+		}
 	}
 	if v := os.Getenv("VH_RAFTLOG_RWTYPE"); v == "1" || v == "2" {
 		r.rwType = int(v[0] - '0')
@@ -636,6 +870,11 @@ func runRaftlogCase(lc *rlCase, root string) (res caseResult) {
 	}
 	defer func() {
 		if r.rds != nil {
+			if r.sizeMode && r.want != nil && r.want.clast > 0 {
+				// (after the last comparison) let the store delete its rolled files itself: rw type 1 keeps
+				// the buffers of rolled files in a process-wide cache until their Delete
+				_ = r.rds.DeleteBefore(r.want.clast)
+			}
 			_ = r.rds.Close()
 		}
 		if len(r.known) > 0 {
@@ -657,16 +896,41 @@ func runRaftlogCase(lc *rlCase, root string) (res caseResult) {
 	for i := range lc.Hist {
 		st := &lc.Hist[i]
 		res.Step, res.Action = i, st.A
+		var prevLast, saveLo, saveHi uint64
+		if r.want != nil {
+			prevLast = r.want.clast
+		}
+		if st.Exp.Cap != lc.Hist[0].Exp.Cap {
+			res.Infra = "the constants of the behaviour change between steps"
+			return
+		}
 		r.setWant(&st.Exp)
 		switch st.A {
 		case "Save":
 			a := st.Args
 			var ents []raftpb.Entry
 			if a.N > 0 {
+				if a.Bm != 0 && !r.sizeMode {
+					res.Infra = "Big payloads in a behaviour with MaxBig = 0"
+					return
+				}
 				lo, hi := r.conc.bnd(a.S0-1)+1, r.conc.bnd(a.S0+a.N-1)
+				saveLo, saveHi = lo, hi
 				ents = make([]raftpb.Entry, 0, hi-lo+1)
 				for ci := lo; ci <= hi; ci++ {
-					ents = append(ents, raftpb.Entry{Index: ci, Term: uint64(a.T), Type: rlType(a.ID, ci), Data: rlPayload(a.D, a.ID, ci)})
+					d := a.D
+					if (a.Bm>>uint(r.conc.blk(ci)-a.S0))&1 == 1 {
+						d = a.Bc
+						if d != rlBig && d != rlHuge {
+							res.Infra = fmt.Sprintf("heavy payload class %d", d)
+							return
+						}
+					}
+					data := r.conc.payload(d, a.ID, ci)
+					if len(data) > 1<<20 {
+						extra.BigWritten++
+					}
+					ents = append(ents, raftpb.Entry{Index: ci, Term: uint64(a.T), Type: rlType(a.ID, ci), Data: data})
 				}
 			}
 			var hs *raftpb.HardState
@@ -777,6 +1041,7 @@ func runRaftlogCase(lc *rlCase, root string) (res caseResult) {
 		if !r.checkReads(i, st) {
 			return
 		}
+		r.observeLayout(st, prevLast, saveLo, saveHi)
 	}
 	return
 }
@@ -805,11 +1070,15 @@ func replayRaftlog(args []string) int {
 			fmt.Fprintln(os.Stderr, "bad case:", err)
 			return 2
 		}
-		r := withWatchdog(lc.ID, 300, func() caseResult { return runRaftlogCase(&lc, root) })
+		var extra rlExtra
+		r := withWatchdog(lc.ID, 300, func() caseResult { return runRaftlogCase(&lc, root, &extra) })
 		if !r.OK {
 			bad++
 		}
-		b, _ := json.Marshal(r)
+		b, _ := json.Marshal(struct {
+			caseResult
+			rlExtra
+		}{r, extra})
 		out.Write(b)
 		out.WriteByte('\n')
 		out.Flush()
